@@ -49,6 +49,12 @@ The announced CONTENTS are modelled as well: device description and destination 
 `Operations.Information` derives them (`c07_supported_functions`; the partial-write capability of a function on a
 feature type comes from the regenerated factory table `Spine.Generated.Functions`, supplied by the driver).
 Not modelled: reads overlapping feature or function additions (C17's subject).
+Deepening round (audit table: `design/audit-C07.md`): "never reused" is now a theorem over histories of the tree model
+incl. entities removed from the device and added again (`c07_numbers_never_reused_history`) and over every schedule of
+the event model incl. numbers burnt by NextFeatureId (`c07_numbers_never_reused`); "one and the same feature" is stated
+for what the calls ASKED for (`c07_handed_what_was_asked`, `c07_same_feature_asked`, `c07_same_feature_asked_refuted`,
+`c07_call_answered`) through the observers `Feat.drawn` / `Feat.answers` (`Spine/FeatureMore.lean`), which the driver
+prints and the harness compares with the implementation's own record.
 -/
 namespace Spine.Props.C07
 open Spine Spine.LTree
